@@ -157,3 +157,13 @@ check("C15",
       "maps up to 9 (thorough 12) faces, iterations <= 2 (3); sweep order = junction index order; convergence rate outside",
       "symbolic execution of the real Python code with z3 (symx), linear real arithmetic, concrete replay",
       "DESIGN.md 4/C15")
+check("C19",
+      "Bounded symbolic execution of Grid, ExtrudedStack/TransformedStack, LoftedShape.grid, Stack.grid/get_slice, "
+      "Mesh.delete + assemble with symbolic grid corner points and height and solver-chosen indices/slice/deleted cell; "
+      "Cylinder, SemiCylinder, Frustum, ExtrudedRing and the disk sketches under a symbolic scale and translation for the "
+      "core/shell partition (squared-distance test against the outer radius). z3 shows grid[k][j][i] sits at column i, "
+      "row j, tier k; slices return exactly the cells with that index, once; deletion removes exactly the addressed hex.",
+      "grid sizes enumerated up to 3x3x2 (thorough 4x4x3); round shapes axis-aligned (rotated placements are lifted in C11); "
+      "np.linspace on symbolic scalars modelled as the affine formula",
+      "symbolic execution of the real Python code with z3 (symx), fork-on-value for indices, concrete replay",
+      "DESIGN.md 4/C19")
